@@ -24,10 +24,10 @@ BUDGET = {
     # thorough: longer histories (to 120 ops), instruction-level interrupts, the real torch optimiser, 5 % real-
     # subprocess restarts, 2000 re-executed runs for the determinism self-test, then the mutant suite:
     # about 30-40 min per property on 16 cores (VERIF_RUNS overrides the run count for soaks)
-    "C10": {"quick": 36000, "thorough": 200000},
-    "C13": {"quick": 16000, "thorough": 100000},
-    "C14": {"quick": 36000, "thorough": 200000},
-    "C15": {"quick": 16000, "thorough": 100000},
+    "C10": {"quick": 54000, "thorough": 240000},
+    "C13": {"quick": 28000, "thorough": 120000},
+    "C14": {"quick": 48000, "thorough": 240000},
+    "C15": {"quick": 28000, "thorough": 120000},
 }
 SELFTEST = {"quick": 64, "thorough": 2000}
 SHRINK_PER_WORKER = 4
